@@ -59,6 +59,14 @@ FIXED = [
                                            {"k": "call", "callee": 4, "shift": 0, "add": 0}, {"k": "arith", "mul": 1, "add": 1},
                                            {"k": "parse", "add": 0}],
      "arg": 1},
+    # a task that records no provenance in the middle of the shallow task's subtree: the tasks
+    # beneath it still belong to the subtree
+    {"name": "noprov-middle", "init": [{"k": "call", "callee": 1, "shift": 0, "add": 1},
+                                       {"k": "call", "callee": 2, "shift": 0, "add": 0, "opts": {"check_valid": "shallow"}},
+                                       {"k": "call", "callee": 3, "shift": 1, "add": 0, "opts": {"prov": False}},
+                                       {"k": "call", "callee": 4, "shift": 0, "add": 2}, {"k": "arith", "mul": 2, "add": 1},
+                                       {"k": "parse", "add": 0}],
+     "arg": 1},
 ]
 
 
@@ -97,6 +105,8 @@ def families(draw):
     init[1]["opts"] = {"check_valid": "shallow"}
     if draw(st.booleans()):
         init[0]["opts"] = {"check_valid": "shallow"}
+    if draw(st.integers(0, 3)) == 0:
+        init[draw(st.integers(2, 3))]["opts"] = {"prov": False}      # a no-provenance task inside the subtree
     return {"name": "gen", "init": init, "arg": draw(st.integers(0, 3))}
 
 
@@ -391,8 +401,25 @@ def schedule_sweep(ctx: Ctx, w) -> None:
             ctx.case({"sweep": w["name"], "schedule": list(d), "edit": i}, labels=["sweep"], nontrivial=True)
 
 
+def edit_sweep(ctx: Ctx) -> None:
+    """Fault-free: for every fixed family and every task of it: run, edit the task, run, revert, run."""
+    for w in FIXED:
+        for i in range(len(w["init"]) - 1):
+            case = {"history": True, "family": w, "ops": [["run", []], ["edit", i, 3], ["run", []], ["revert", i], ["run", []]]}
+            try:
+                run_history(ctx, case)
+            except Violation as v:
+                ctx.case({"edit-sweep": w["name"], "edit": i}, labels=["edit-sweep", "violating"], nontrivial=True)
+                if not ctx.absorb(v):
+                    raise
+                continue
+            ctx.case({"edit-sweep": w["name"], "edit": i}, labels=["edit-sweep"], nontrivial=True)
+
+
 def check(ctx: Ctx) -> None:
     C.quiet_logs()
+    if ctx.shard in (None, 0):
+        edit_sweep(ctx)
     fams = list(FIXED[:1]) if not ctx.thorough else shard_range(ctx, list(FIXED))
     for w in fams:
         enumerate_family(ctx, w)
